@@ -199,7 +199,7 @@ class Indicator(ABC):
             if self.candles[index].indicators.get(self.name) is not None:
                 continue
 
-            reading = round_values(self._calculate_reading(index=index), round_by=self.round_value)
+            reading = self._round_reading(self._calculate_reading(index=index))
             self._set_reading(reading, index)
 
         self._calculate_sub_indicators(prior_calc=False)
@@ -216,10 +216,16 @@ class Indicator(ABC):
 
         for index in range(start_index, end_index):
             self._set_active_index(index)
-            reading = round_values(self._calculate_reading(index=index), round_by=self.round_value)
+            reading = self._round_reading(self._calculate_reading(index=index))
             self._set_reading(reading, index)
 
         self._calculate_sub_indicators(False, start_index, end_index)
+
+    def _round_reading(self, reading):
+        """Readings are rounded for presentation, helper series other indicators compute from are kept as calculated"""
+        if self._sub_indicator:
+            return reading
+        return round_values(reading, round_by=self.round_value)
 
     def _find_calc_index(self) -> int:
         """Optimisation method, to find where to start calculating the indicator from
